@@ -556,6 +556,12 @@ class Interp:
             if isarr:
                 new.vars[pn] = self.lookup_array(a[1])
                 continue
+            if pty.startswith('T:'):
+                c = self.lv_cell(a)
+                if not isinstance(c, dict):
+                    raise Inconclusive('record parameter bound to a non-record')
+                new.vars[pn] = c              # records: always by reference
+                continue
             if a[0] in ('var', 'idx', 'fld') and not (a[0] == 'var' and a[1] in self.consts
                                                        and a[1] not in self.scope.vars):
                 c = self.lv_cell(a)
